@@ -90,8 +90,8 @@ PROPS = {
                 quick=[R(checks=4000)],
                 thorough=[R(checks=20000, shards=16, timeout=1800)]),
     "C19": dict(pkg="c19", level="exploration",
-                quick=[R(checks=700, env={"VERIF_JOURNAL": "1"}, timeout=900)],
-                thorough=[R(checks=2500, shards=16, env={"VERIF_JOURNAL": "1"}, timeout=2400)]),
+                quick=[R(checks=700, env={"VERIF_JOURNAL": "1"}, timeout=900), R(test="TestDevMgr", checks=1, env={"VERIF_JOURNAL": "1"}, timeout=300)],
+                thorough=[R(checks=2500, shards=16, env={"VERIF_JOURNAL": "1"}, timeout=2400), R(test="TestDevMgr", checks=2, shards=4, env={"VERIF_JOURNAL": "1"}, timeout=600)]),
     "C20": dict(pkg="c20", level="exploration",
                 quick=[R(checks=12000, timeout=900)],
                 thorough=[R(checks=40000, shards=16, timeout=2400), F("FuzzPath", 120), F("FuzzJSONIntent", 150), F("FuzzXML", 120)]),
